@@ -25,7 +25,7 @@ def bad_values(c):
         ("ragged list", [[1.0], [2.0, 3.0]]), ("-1", -1), ("0.5", 0.5), ("2**70", 2 ** 70), ("nan", float("nan")), ("{}", {}),
         ("text array", np.array(["x", "y"])), ("[None]", [None]), ("[]", []), ("<Tag>", c["t"]), ("<Section>", c["s"]),
         ("<array of another block>", c["foreign"]), ("<DataArray>", c["a"]), ("<DataFrame>", c["df"]), ("5", 5), ("True", True),
-        ("[2**70]", [2 ** 70]), ("[3.0, 1.0]", [3.0, 1.0]), ("'x/y'", "x/y"), ("<id of an existing entity>", c["a"].id),
+        ("[2**70]", [2 ** 70]), ("[3.0, 1.0]", [3.0, 1.0]), ("text with a NUL", "a\x00b"), ("[text with a NUL]", ["a\x00b"]), ("'x/y'", "x/y"), ("<id of an existing entity>", c["a"].id),
     ]
 
 
